@@ -49,7 +49,7 @@ def fmt_time(v):
     if v < 1000000:
         return str(v)
     delta, small = v, 0
-    limits = [1000, 1000, 1000, 60, 24, 1 << 31]
+    limits = [1000, 1000, 1000, 60, 60, 1 << 31]
     units = ["us", "ms", "s", "m", "h"]
     for idx in range(5):
         small = delta % limits[idx]
